@@ -1,6 +1,6 @@
 """redfishpower --test-mode (the real binary, rebuilt from the working tree, driven over pipes) vs the Lean machine
 model (`runCmd`) and vs the documented hierarchy rules as a pure Lean function (`specStat`/`specPower`)."""
-import collections, os, random, subprocess, itertools
+import collections, os, random, subprocess, itertools, time
 from common import *
 
 
@@ -172,11 +172,452 @@ def one(args):
     return dict(n=ev, distinct=len(distinct), diffs=diffs, violations=V, stats=st, sample=sample)
 
 
+
+# ---------------------------------------------------------------------------------------------------------------------
+# second scenario: whole sessions of raw input lines (configuration commands included) against the Lean command layer
+# Pm/RfCmd.lean behind the driver rfcmddriver (lean/RfCmdMain.lean), byte for byte, plus predicates on the helper's own output.
+
+HAZARDS_ALL = ('push_fail', 'timeout_overflow', 'undefined_parent', 'cycle', 'no_statpath', 'unmapped_path')
+"""input lines that terminate or wedge the unchanged helper (findings of the command-layer model; each has a `_counterexample`
+theorem in Props/C19.lean).  They are generated only when switched on - RedfishLayer(hazards=...) or the environment variable
+VERIF_RF_HAZARDS=all | push_fail,cycle,... - so that each can be enabled once it is repaired in the repository or listed as known:
+  push_fail         setplugs with a plug name that does not parse as a hostlist again (`P[1]x[`): err_exit "hostlist_push failed"
+  unmapped_path     plug name that parses to another name (`P[1]x[3]`); `setpath P1x3 ...`: err_exit "plugs_update_path failed"
+  timeout_overflow  settimeout 9223372036854775807 (or out of range: reported, still stored); next stat/on/off: err_exit "cmd_timeout overflow"
+  undefined_parent  stat/on/off of a plug below a parent that is not defined: assert(root_plugname) fails
+  cycle             parent cycle: plugs_find_root_parent never returns
+  no_statpath       a parent query / status poll of a plug without status path: the request waits for ever, no prompt"""
+
+SIG_EXIT = [('hostlist_push failed', 'C19 helper terminated by input: hostlist_push failed (plug name re-parsed as a hostlist expression)'),
+            ('cmd_timeout overflow', 'C19 helper terminated by input: cmd_timeout overflow (settimeout value stored unchecked)'),
+            ('root_plugname', 'C19 helper terminated by input: assertion root_plugname failed (parent plug not defined)'),
+            ('plugs_update_path failed', 'C19 helper terminated by input: plugs_update_path failed (plug known to the list, not to the map)'),
+            ('AddressSanitizer', 'C19 helper terminated by input: memory error reported by AddressSanitizer'),
+            ('runtime error', 'C19 helper terminated by input: undefined behaviour reported by UBSan')]
+
+
+def hazards_enabled(extra=()):
+    v = os.environ.get('VERIF_RF_HAZARDS', '')
+    hz = set(HAZARDS_ALL) if v == 'all' else set(x for x in v.split(',') if x in HAZARDS_ALL)
+    return hz | set(extra)
+
+
+_cmddrv = None
+
+
+def cmd_driver():
+    global _cmddrv
+    if _cmddrv is None:
+        ok, out = lake_build(('rfcmddriver',))
+        if not ok: raise BuildError('rfcmddriver does not build:\n' + out[-3000:])
+        _cmddrv = os.path.join(LEANBIN, 'rfcmddriver')
+    return _cmddrv
+
+
+def fgets_split(data, size=256):
+    """what successive fgets(buf, 256, stdin) calls return"""
+    out = []; i = 0
+    while i < len(data):
+        j = data.find(b'\n', i, i + size - 1)
+        k = j + 1 if j >= 0 else min(len(data), i + size - 1)
+        out.append(data[i:k]); i = k
+    return out
+
+
+def c_words(piece):
+    """argv_create(buf, ""): the C string (up to the first NUL) split at isspace() characters"""
+    z = piece.find(b'\0')
+    if z >= 0: piece = piece[:z]
+    w = []; cur = b''
+    for ch in piece:
+        if ch in b' \t\n\v\f\r':
+            if cur: w.append(cur); cur = b''
+        else: cur += bytes([ch])
+    if cur: w.append(cur)
+    return w
+
+
+import re as _re
+
+
+def hl_expand(e):
+    """names of a hostlist expression (hostlist_create + hostlist_next), None = hostlist_create refuses it.  Tokens end at a comma
+    outside brackets; prefix = up to the first `[`, ranges = up to the next `]`, the rest of the token is the suffix"""
+    toks = []; cur = b''; lvl = 0
+    for ch in e:
+        c = bytes([ch])
+        if c == b',' and lvl == 0:
+            if cur: toks.append(cur)
+            cur = b''; continue
+        if c == b'[': lvl += 1
+        if c == b']': lvl -= 1
+        cur += c
+    if cur: toks.append(cur)
+    out = []
+    for t in toks:
+        if b'[' not in t:
+            if b']' in t: return None
+            out.append(t); continue
+        pre, rest = t.split(b'[', 1)
+        if b']' not in rest: return None
+        body, suf = rest.split(b']', 1)
+        for r in body.split(b','):
+            mm = _re.match(rb'^(\d+)(?:-(\d+))?$', r)
+            if not mm: return None
+            lo = min(int(mm.group(1)), 2 ** 64 - 1); hi = min(int(mm.group(2)), 2 ** 64 - 1) if mm.group(2) is not None else lo      # strtoul saturates
+            if lo > hi or hi - lo >= 16384: return None
+            w = len(mm.group(1))
+            for k in range(lo, hi + 1): out.append(pre + (b'%0*d' % (w, k)) + suf)
+    return out
+
+
+class Oracle:
+    """what the documentation says of the configuration commands, kept independently of the Lean model: the plug table (name ->
+    host index, parent), in definition order; whether a status path is set; the stored time-out"""
+
+    def __init__(self, nh):
+        self.nh = nh; self.initial = True
+        self.tbl = collections.OrderedDict(('h%d' % i, (i, None)) for i in range(nh))
+        self.tbl = collections.OrderedDict((k.encode(), v) for k, v in self.tbl.items())
+        self.statpath = False; self.ownstat = set(); self.timeout = 60; self.quit = False
+
+    def copy(self):
+        import copy
+        o = copy.copy(self); o.tbl = collections.OrderedDict(self.tbl); o.ownstat = set(self.ownstat); return o
+
+    def chain(self, n):
+        """'root' | 'undef' | 'loops' for the way up from n"""
+        seen = set()
+        while True:
+            if n not in self.tbl: return 'undef'
+            if n in seen: return 'loops'
+            seen.add(n)
+            p = self.tbl[n][1]
+            if p is None: return 'root'
+            n = p
+
+    def hazards(self):
+        hz = set()
+        for n in self.tbl:
+            c = self.chain(n)
+            if c == 'undef': hz.add('undefined_parent')
+            if c == 'loops': hz.add('cycle')
+        if not self.statpath and not all(n in self.ownstat for n in self.tbl): hz.add('no_statpath')
+        if self.timeout > 2 ** 62: hz.add('timeout_overflow')
+        for n in self.tbl:
+            if b'[' in n or b']' in n: hz.add('unmapped_path')
+        return hz
+
+    def apply(self, piece):
+        """the effect of one piece of input on the table; returns for stat/on/off the list of targets (or None)"""
+        w = c_words(piece)
+        if not w or self.quit: return None
+        c, a = w[0], w[1:]
+        if c == b'quit': self.quit = True
+        elif c == b'setstatpath': self.statpath = bool(a)
+        elif c == b'settimeout' and a:
+            m = _re.match(rb'^[+-]?\d+', a[0])
+            v = int(m.group(0)) if m else 0
+            self.timeout = max(-2 ** 63, min(2 ** 63 - 1, v))
+        elif c == b'setpath' and len(a) >= 3 and a[1] == b'stat':
+            for n in hl_expand(a[0]) or []:
+                if n not in self.tbl: break
+                self.ownstat.add(n)
+        elif c == b'setplugs' and len(a) >= 2:
+            names = hl_expand(a[0]); idxs = hl_expand(a[1])
+            if names is None or idxs is None: return None
+            if self.initial:
+                self.initial = False
+                for i in range(self.nh): self.tbl.pop(b'h%d' % i, None)
+            if len(names) != len(idxs):
+                if len(names) > 1 and len(idxs) == 1: idxs = idxs * len(names)
+                else: return None
+            par = a[2] if len(a) > 2 else None
+            for n, ix in zip(names, idxs):
+                if not _re.match(rb'^[+-]?\d+$', ix): return None
+                v = int(ix)
+                if abs(v) >= 2 ** 63: return None
+                v = (v + 2 ** 31) % 2 ** 32 - 2 ** 31
+                if v < 0 or v >= self.nh: return None
+                if n in self.tbl: self.tbl[n] = (v, par); self.ownstat.discard(n)
+                else: self.tbl[n] = (v, par)
+        elif c in (b'stat', b'on', b'off'):
+            return list(self.tbl) if not a else hl_expand(a[0])
+        return None
+
+
+PFX = [b'Node', b'Blade', b'chassis', b'cmm', b'P', b'n', b'x-ib', b'slot_', b'psu-', b'R', b'Perif', b'enc']
+BAD_EXPR = [b'P[3-1]', b'P[1-', b'P1]', b'P[a-b]', b'P[1--2]', b'P[]', b'[', b']', b'P[1-100000]', b'P[1,,2]', b'P[-1]', b'P[1-2', b'P[0-16384]', b'Node[0-3', b'a,b],c']
+BAD_CMD = [b'bogus', b'STAT', b'stat,', b'onn', b'cycle P1', b'Quit', b'status', b'set plugs', b'?', b'stat\x80', b'\xff\xfe', b'setplug P1 0', b'helpp', b'0', b'-h']
+
+
+def gen_session(R, hz=()):
+    """a whole session of raw input lines: paths, a forest defined by several setplugs calls with ranges, then valid commands mixed
+    with a malformed stream.  Lines that would terminate or wedge the helper (HAZARDS_ALL) are written only if their kind is in hz"""
+    hz = set(hz)
+    nh = R.randint(1, 6)
+    failing = [h for h in range(nh) if R.random() < 0.2]
+    o = Oracle(nh)
+    lines = []
+
+    def emit(l):
+        """append a line if the table it leaves is safe (or its hazard is switched on)"""
+        t = o.copy()
+        for pc in fgets_split(l + b'\n'): t.apply(pc)
+        if t.hazards() - o.hazards() - hz: return False
+        lines.append(l)
+        for pc in fgets_split(l + b'\n'): o.apply(pc)
+        return True
+
+    pre = [b'setstatpath redfish/v1/{{plug}}/stat']
+    if R.random() < 0.92: pre.append(b'setonpath on/{{plug}} {"ResetType":"On"}')
+    if R.random() < 0.92: pre.append(b'setoffpath off {x}')
+    if R.random() < 0.1: pre.append(b'auth user:pw')
+    if R.random() < 0.1: pre.append(b'setheader Content-Type:application/json')
+    R.shuffle(pre)
+    for l in pre: emit(l)
+    if R.random() < 0.25: emit(b'stat')                     # the initial plugs, one per host
+    used = set()
+
+    def names_expr(k):
+        while True:
+            pfx = R.choice(PFX) + (b'%d-' % R.randint(0, 3) if R.random() < 0.2 else b'')
+            if pfx not in used: break
+        used.add(pfx)
+        lo = R.randint(0, 12); w = R.choice([1, 1, 1, 2, 3])
+        r = R.random()
+        if k == 1 and r < 0.5: return pfx + b'%0*d' % (w, lo) if R.random() < 0.7 else pfx[:-1] + b'x'
+        if r < 0.6: return pfx + b'[%0*d-%0*d]' % (w, lo, w, lo + k - 1)
+        if r < 0.75: return b','.join(pfx + b'%d' % (lo + i) for i in range(k))
+        if r < 0.85 and k >= 2: return pfx + b'[%d,%d-%d]' % (lo, lo + 1, lo + k - 1) if k > 2 else pfx + b'[%d,%d]' % (lo, lo + 1)
+        return pfx + b'[%d-%d]b' % (lo, lo + k - 1)
+
+    def idx_expr(k):
+        r = R.random()
+        if k > 1 and r < 0.25: return b'%d' % R.randrange(nh)
+        a = R.randrange(nh)
+        if a + k <= nh and r < 0.7: return b'[%d-%d]' % (a, a + k - 1) if k > 1 else b'%d' % a
+        return b','.join(b'%d' % R.randrange(nh) for _ in range(k))
+
+    prev = []
+    for lv in range(R.randint(1, 3)):
+        cur = []
+        for g in range(R.randint(1, 2)):
+            k = R.randint(1, 4)
+            ne = names_expr(k)
+            par = R.choice(prev) if prev and R.random() < 0.85 else None
+            l = b'setplugs ' + ne + b' ' + idx_expr(k) + (b' ' + par if par else b'')
+            if emit(l): cur += hl_expand(ne) or []
+        prev = cur or prev
+    if not o.tbl or o.initial:
+        emit(b'setplugs P[0-1] 0')
+
+    def known(): return list(o.tbl)
+
+    def target_expr():
+        ks = known()
+        ts = [R.choice(ks) for _ in range(R.randint(1, 4))] if ks else []
+        r = R.random()
+        if r < 0.25: ts.insert(R.randrange(len(ts) + 1), R.choice([b'Zz', b'nosuch7', b'P99', b'h0', b'Node', b'\xe9t\xe9']))
+        if r < 0.08: ts.append(ts[0])
+        if 0.3 < r < 0.4 and ks:
+            # a range around a known name with a numeric suffix: known and unknown ones mixed
+            m = _re.match(rb'^(.*?)(\d+)$', R.choice(ks))
+            if m and len(m.group(2)) < 6: return m.group(1) + b'[%d-%d]' % (max(0, int(m.group(2)) - 1), int(m.group(2)) + 2)
+        return b','.join(ts)
+
+    n = R.randint(6, 22)
+    for _ in range(n):
+        r = R.random()
+        ks = known()
+        if r < 0.42:
+            c = R.choice([b'stat', b'on', b'off', b'on', b'off', b'stat'])
+            emit(c if R.random() < 0.15 else c + b' ' + target_expr())
+        elif r < 0.50: emit(R.choice(BAD_CMD))
+        elif r < 0.56: emit(R.choice([b'setplugs', b'setplugs P1', b'setpath', b'setpath P1', b'setpath P1 stat', b'auth', b'settimeout', b'setonpath', b'setoffpath', b'setheader',
+                                      b'stat a b c', b'quit now' if R.random() < 0.1 else b'help me', b'setplugs P[0-1] [0-1] Q extra words']))
+        elif r < 0.62: emit(R.choice([b'stat ', b'on ', b'off ', b'setplugs ', b'setpath ']) + R.choice(BAD_EXPR) + R.choice([b'', b' 0', b' stat x']))
+        elif r < 0.68:
+            # count mismatch / bad host indices (the plugs before the bad index are defined)
+            k = R.randint(2, 4)
+            bad = R.choice([b'%d' % nh, b'99', b'-1', b'x', b'1x', b'+%d' % R.randrange(nh), b'4294967296', b'4294967295', b'2147483648', b'99999999999999999999', b'0x0', b'1.0', b'', b'007'])
+            ne = names_expr(k)
+            r2 = R.random()
+            if r2 < 0.3: ie = b'[0-%d]' % k                                     # one index too many
+            elif r2 < 0.4: ie = b'0,0' if k != 2 else b'0,0,0'
+            else:
+                xs = [b'%d' % R.randrange(nh) for _ in range(k)]; xs[R.randrange(k)] = bad
+                ie = b','.join(x for x in xs if x) or b'0'
+            par = R.choice(ks) if ks and R.random() < 0.4 else None
+            emit(b'setplugs ' + ne + b' ' + ie + (b' ' + par if par else b''))
+        elif r < 0.73 and ks:
+            # redefinition: another host, another parent (kept acyclic by emit unless `cycle` is on), or no parent any more
+            x = R.choice(ks); par = R.choice(ks + [None, None])
+            emit(b'setplugs ' + x + b' %d' % R.randrange(nh) + (b' ' + par if par else b''))
+        elif r < 0.77:
+            emit(R.choice([b'', b' ', b'\t \t', b'\r', b'\v\f', b'  stat  ' + target_expr() + b' \t', b'\tstat\t' + target_expr(), b'stat ' + target_expr() + b'\r',
+                           b'stat\0 ' + target_expr(), b'\0stat', b'st\0at', b'on ' + target_expr() + b'\0junk junk']))
+        elif r < 0.81:
+            # very long lines: fgets cuts them into pieces of 255 bytes, each piece is a command line of its own
+            kind = R.random()
+            if kind < 0.4: emit(b'stat ' + b','.join(R.choice(ks or [b'Zz']) for _ in range(R.randint(40, 90))))
+            elif kind < 0.6: emit(b'bogus' + b'x' * R.randint(240, 700))
+            elif kind < 0.8: emit(b'stat ' + b'L' * R.randint(100, 240) + b'[1-3]')
+            else: emit(b'setplugs ' + R.choice(PFX) + b'L' * R.randint(60, 180) + b'%d' % R.randint(0, 9) + b' 0')
+        elif r < 0.86 and ks:
+            sub = R.choice(ks)
+            emit(R.choice([b'setpath ' + sub + b' stat own/{{plug}}/s', b'setpath ' + sub + b' on own/on {"a":1}', b'setpath ' + sub + b' off own/off',
+                           b'setpath ' + sub + b' cycle x', b'setpath Zz stat x', b'setpath ' + sub + b',Zz,' + sub + b' on p', b'setpath ' + sub + b' ON x']))
+        elif r < 0.90: emit(R.choice([b'settimeout 5', b'settimeout 0', b'settimeout -5', b'settimeout x', b'settimeout 10x', b'settimeout 1000000000', b'settimeout +7']))
+        elif r < 0.92: emit(b'help')
+        elif r < 0.925: emit(R.choice([b'stat P[99999999999999999999]', b'on P[00000000000000000001-00000000000000000002]', b'setplugs Q[18446744073709551616] 0']))
+        # ---- lines that terminate or wedge the unchanged helper: only when switched on
+        elif r < 0.95 and 'push_fail' in hz: emit(R.choice([b'setplugs P[1]x[ 0', b'setplugs Q[1-2]]a 0', b'setplugs P[1]]a,b[ 0', b'setplugs P[1-2]-[ 0']))
+        elif r < 0.96 and 'unmapped_path' in hz:
+            emit(b'setplugs P[1]x[3] 0'); emit(R.choice([b'stat P1x3', b'stat P[1]x[3]', b'setpath P1x3 stat s']))
+        elif r < 0.97 and 'timeout_overflow' in hz: emit(R.choice([b'settimeout 9223372036854775807', b'settimeout 99999999999999999999']))
+        elif r < 0.98 and 'undefined_parent' in hz: emit(b'setplugs U[0-1] 0 NotThere')
+        elif r < 0.99 and 'cycle' in hz and ks:
+            x = R.choice(ks); emit(b'setplugs ' + x + b' 0 ' + R.choice(ks))
+        elif 'no_statpath' in hz: emit(b'setstatpath')
+    if R.random() < 0.3:
+        emit(b'quit'); 
+        if R.random() < 0.5: emit(b'stat')
+    data = b'\n'.join(lines) + (b'\n' if R.random() < 0.9 else b'')
+    return dict(nh=nh, failing=failing, data=data.decode('latin-1'))
+
+
+def run_session_c(binary, sc):
+    args = [binary, '-h', 'h[0-%d]' % (sc['nh'] - 1), '--test-mode']
+    if sc['failing']: args.append('--test-fail-power-cmd-hosts=' + ','.join('h%d' % h for h in sc['failing']))
+    data = sc['data'].encode('latin-1')
+    try:
+        r = subprocess.run(args, input=data, capture_output=True, env=ASAN_ENV, timeout=10)
+        return r.stdout, r.stderr.decode('latin-1'), r.returncode, False
+    except subprocess.TimeoutExpired as e:
+        return e.stdout or b'', (e.stderr or b'').decode('latin-1'), -9, True
+
+
+def run_session_lean(sc):
+    args = [cmd_driver(), '-h', 'h[0-%d]' % (sc['nh'] - 1), '-n', str(int(time.time()))]
+    if sc['failing']: args += ['-E', ','.join('h%d' % h for h in sc['failing'])]
+    r = subprocess.run(args, input=sc['data'].encode('latin-1'), capture_output=True, timeout=120)
+    ctl = [l for l in r.stderr.decode('latin-1').split('\n') if l.startswith('CTL ')]
+    if r.returncode != 0 or not ctl: raise RuntimeError('rfcmddriver failed: rc=%d %s' % (r.returncode, r.stderr[-400:]))
+    w = ctl[0].split(' ', 3)
+    return r.stdout, w[1], int(w[2]), (w[3] if len(w) > 3 else '')
+
+
+PROMPTB = PROMPT.encode()
+_RES = _re.compile(rb'^(?:unknown plug specified: (.*)|(.*?): .*)$')
+
+
+def check_session(sc, cout, cerr, rc, hung, V, st, lean=None):
+    """predicates on the helper's own output: it ends only by quit / end of input, prints one prompt per piece of input it reads
+    (one per line, for lines of up to 254 bytes), one line per target of a stat/on/off (an `unknown plug specified` line exactly
+    for the targets the configuration does not define), and `type "help"` exactly for the unknown commands"""
+    data = sc['data'].encode('latin-1')
+    pieces = fgets_split(data)
+    rp = dict(layer='redfish', session=sc)
+    if hung:
+        # which kind of table the helper was wedged on (by the oracle's own bookkeeping, up to the last prompt seen)
+        o = Oracle(sc['nh'])
+        for pc in pieces[:max(0, len(cout.split(PROMPTB)) - 1)]: o.apply(pc)
+        hzs = o.hazards()
+        why = 'cycle in the plug table' if 'cycle' in hzs else 'a plug without status path is polled or queried' if 'no_statpath' in hzs else 'not explained'
+        V.append(dict(sig='C19 helper hangs: ' + why, model=('%s %s' % (lean[1], lean[3]) if lean else None), replay=rp)); return False
+    if rc != 0:
+        sig = next((s for k, s in SIG_EXIT if k in cerr), 'C19 helper terminated by input: rc=%d' % rc)
+        V.append(dict(sig=sig, detail=cerr[-600:], replay=rp)); return False
+    chunks = cout.split(PROMPTB)
+    o = Oracle(sc['nh'])
+    nq = next((i for i, pc in enumerate(pieces) if c_words(pc)[:1] == [b'quit']), None)
+    want = len(pieces) + 1 if nq is None else nq + 1
+    if len(chunks) - 1 != want:
+        V.append(dict(sig='C19 not one prompt per input line', prompts=len(chunks) - 1, expected=want, replay=rp)); return False
+    if chunks[0] != b'':
+        V.append(dict(sig='C19 output before the first prompt', replay=rp)); return False
+    for i, pc in enumerate(pieces[:want - (0 if nq is not None else 1)] if nq is None else pieces[:nq + 1]):
+        ans = chunks[i + 1] if i + 1 < len(chunks) else b''
+        w = c_words(pc)
+        ts = o.apply(pc)
+        known = set(o.tbl)
+        lines = [l for l in ans.split(b'\n') if l]
+        st['session lines'] += 1
+        if w and w[0] in (b'stat', b'on', b'off'):
+            st['session ' + w[0].decode()] += 1
+            if ts is None:
+                if lines != [b'illegal hosts input'] and len(w) > 1 and not _re.search(rb'\d{19}', w[1]):
+                    V.append(dict(sig='C19 malformed target expression not answered by `illegal hosts input`', piece=repr(pc), got=repr(ans[:300]), replay=rp)); return False
+                st['session malformed target expression'] += 1
+                continue
+            named = collections.Counter(); unk = collections.Counter()
+            for l in lines:
+                m = _RES.match(l)
+                if not m:
+                    V.append(dict(sig='C19 unexpected output line for stat/on/off', line=repr(l), replay=rp)); return False
+                if m.group(1) is not None: unk[m.group(1)] += 1
+                else: named[m.group(2)] += 1
+            wk = collections.Counter(t for t in ts if t in known); wu = collections.Counter(t for t in ts if t not in known)
+            if named != wk:
+                V.append(dict(sig='C19 not exactly one result line per targeted known plug', piece=repr(pc), got=repr(ans[:400]), replay=rp)); return False
+            if unk != wu:
+                V.append(dict(sig='C19 not exactly one `unknown plug specified` line per unknown target', piece=repr(pc), got=repr(ans[:400]), replay=rp)); return False
+            st['session targets known'] += sum(wk.values()); st['session targets unknown'] += sum(wu.values())
+        elif w and w[0] not in (b'help', b'quit', b'auth', b'setheader', b'setstatpath', b'setonpath', b'setoffpath', b'setplugs', b'setpath', b'settimeout'):
+            st['session unknown command'] += 1
+            if lines != [b'type "help" for a list of commands']:
+                V.append(dict(sig='C19 unknown command not answered by the help hint', piece=repr(pc), got=repr(ans[:200]), replay=rp)); return False
+        elif not w:
+            st['session empty line'] += 1
+            if lines:
+                V.append(dict(sig='C19 empty line answered', piece=repr(pc), got=repr(ans[:200]), replay=rp)); return False
+        elif w[0] in (b'setplugs', b'setpath', b'settimeout', b'auth'):
+            if lines: st['session diagnostic: ' + _re.sub(r'\d+', 'N', ' '.join(lines[0].decode('latin-1').split()[:4]))[:60]] += 1
+            if len(lines) > 1:
+                V.append(dict(sig='C19 more than one diagnostic for a configuration command', piece=repr(pc), got=repr(ans[:300]), replay=rp)); return False
+    return True
+
+
+def one_session(args):
+    seed, n, hz = args
+    binary = build(); cmd_driver()
+    R = random.Random(seed)
+    diffs = []; V = []; st = collections.Counter(); ev = 0; distinct = set(); sample = None
+    for k in range(n):
+        sc = gen_session(R, hz)
+        cout, cerr, rc, hung = run_session_c(binary, sc)
+        lout, kind, npieces, detail = run_session_lean(sc)
+        rp = dict(layer='redfish', session=sc)
+        pieces = fgets_split(sc['data'].encode('latin-1'))
+        ev += len(pieces); distinct.add(sc['data'])
+        st['sessions'] += 1; st['session model outcome: ' + kind] += 1
+        ok = check_session(sc, cout, cerr, rc, hung, V, st, (lout, kind, npieces, detail))
+        # the tie: the same bytes
+        agree = True
+        if kind == 'cont': agree = (not hung and rc == 0 and cout == lout)
+        elif kind == 'exit': agree = (not hung and rc == int(detail.split()[0]) and cout == lout)
+        elif kind == 'abort': agree = (not hung and rc not in (0, 1) and cout == lout)
+        elif kind == 'hang': agree = (hung and cout == lout)
+        elif kind == 'outside': agree = cout.startswith(lout)
+        if not agree:
+            cc_ = cout.split(PROMPTB); ll = lout.split(PROMPTB)
+            j = next((i for i in range(min(len(cc_), len(ll))) if cc_[i] != ll[i]), min(len(cc_), len(ll)))
+            diffs.append(dict(kind='session-model-differs', at=j, piece=repr(pieces[j - 1]) if 0 < j <= len(pieces) else None, model_outcome='%s %s' % (kind, detail),
+                              c_outcome='hung' if hung else 'rc=%d' % rc,
+                              lines=[dict(c=(cc_[j] if j < len(cc_) else b'<none>').decode('latin-1')[:400], lean=(ll[j] if j < len(ll) else b'<none>').decode('latin-1')[:400])], replay=rp))
+        if sample is None and ok and len(pieces) > 8:
+            sample = dict(session=[repr(p)[2:-1][:80] for p in pieces[:10]], answers=[a.decode('latin-1').strip().split('\n')[:4] for a in cout.split(PROMPTB)[1:11]])
+    return dict(n=ev, distinct=len(distinct), diffs=diffs, violations=V, stats=st, sample=sample)
+
+
 class RedfishLayer:
     name = 'redfish'
 
-    def __init__(self, quick=(16, 120, 8), thorough=(256, 400, 12)):
+    def __init__(self, quick=(16, 120, 8), thorough=(256, 400, 12), sessions_quick=(16, 40), sessions_thorough=(64, 100), hazards=()):
         self.quick = quick; self.thorough = thorough
+        self.sessions_quick = sessions_quick; self.sessions_thorough = sessions_thorough     # (processes, sessions each)
+        self.hazards = tuple(hazards)
 
     def build(self): build()
 
@@ -184,13 +625,35 @@ class RedfishLayer:
         ns, n, mp = self.quick if tier == 'quick' else self.thorough if tier == 'thorough' else (self.quick[0] * 4, self.quick[1], self.quick[2])
         self.build()
         rs = pmap(one, [(seed * 6101 + k * 7877 + 5, n, mp) for k in range(ns)])
+        # whole sessions of raw lines (configuration commands, malformed stream) against the command-layer model
+        cmd_driver()
+        sp, sn = self.sessions_quick if tier == 'quick' else self.sessions_thorough if tier == 'thorough' else (self.sessions_quick[0] * 4, self.sessions_quick[1])
+        hz = tuple(sorted(hazards_enabled(self.hazards)))
+        rs += pmap(one_session, [(seed * 9109 + k * 3571 + 11, sn, hz) for k in range(sp)])
         st = collections.Counter()
         for r in rs: st.update(r['stats'])
         return dict(name=self.name, evaluations=sum(r['n'] for r in rs), distinct=sum(r['distinct'] for r in rs), samples=[r['sample'] for r in rs if r['sample']][:1],
                     stats=dict(sorted(st.items())), diffs=[d for r in rs for d in r['diffs']], violations=[v for r in rs for v in r['violations']],
-                    rule='one evaluation = one stat/on/off command (or malformed line) sent to the real redfishpower --test-mode, one process per random forest (<= %d plugs, any depth, shared and failing hosts, duplicate and unknown targets); output compared as a multiset with the Lean machine model and with the documented rules as a pure Lean function; distinct = distinct (forest, failing set, command, targets)' % mp)
+                    rule='one evaluation = one stat/on/off command (or malformed line) sent to the real redfishpower --test-mode, one process per random forest (<= %d plugs, any depth, shared and failing hosts, duplicate and unknown targets); output compared as a multiset with the Lean machine model and with the documented rules as a pure Lean function; distinct = distinct (forest, failing set, command, targets).  Second scenario (statistics `session ...`): whole sessions of raw input lines - paths, a forest defined by several setplugs calls with ranges, then stat/on/off over hostlist expressions mixed with a malformed stream (unknown commands, wrong argument counts, count mismatch, bad host indices, malformed and oversized ranges, unknown and duplicate targets, redefinitions, empty / blank / NUL-bearing / over-long lines) - fed byte for byte to the real helper and to the Lean command layer Pm/RfCmd.lean (rfcmddriver), whole transcripts compared byte for byte (one evaluation = one piece of input as fgets returns it), plus predicates on the output of the helper itself: ends only by quit / end of input, one prompt per piece, one result line per targeted known plug, one `unknown plug specified` line per unknown target; hazard lines switched on: %s' % (mp, ','.join(sorted(hazards_enabled(self.hazards))) or 'none'))
 
     def replay(self, rp, v):
+        if 'session' in rp:
+            sc = rp['session']
+            cout, cerr, rc, hung = run_session_c(build(), sc)
+            lout, kind, npieces, detail = run_session_lean(sc)
+            pieces = fgets_split(sc['data'].encode('latin-1'))
+            print('hosts h[0-%d], failing hosts %s' % (sc['nh'] - 1, sc['failing']))
+            cc_ = cout.split(PROMPTB); ll = lout.split(PROMPTB)
+            for i, pc in enumerate(pieces):
+                print('>', repr(pc)[2:-1])
+                a = cc_[i + 1] if i + 1 < len(cc_) else None; b = ll[i + 1] if i + 1 < len(ll) else None
+                print('  C   :', a.decode('latin-1').split('\n')[:-1] if a is not None else '<none>')
+                if a != b: print('  Lean:', b.decode('latin-1').split('\n')[:-1] if b is not None else '<none>')
+            print('helper: rc', rc, 'hung', hung, cerr[-500:].strip())
+            print('model : %s after %d pieces %s' % (kind, npieces, detail))
+            V = []; check_session(sc, cout, cerr, rc, hung, V, collections.Counter(), (lout, kind, npieces, detail))
+            for x in V: print('predicate:', x['sig'], {k: x[k] for k in x if k not in ('sig', 'replay')})
+            return 1
         sc = rp['scenario']
         sc['plugs'] = [tuple(p) for p in sc['plugs']]; sc['cmds'] = [tuple(c) for c in sc['cmds']]
         answers, err, rc, hung, npr, nl = run_c(build(), sc)
